@@ -38,14 +38,29 @@ Fixpoint has_ty (t : ty) (v : val) {struct t} : Prop :=
           (fix go (l : list elem) (i : nat) {struct l} : Prop :=
              match l, i with
              | [], _ => False
-             | e :: _, O => has_el e (Some w)
-             | _ :: r, S j => go r j
+             | e :: _, O => sup_alt e = true /\ has_el e (Some w)
+             | e :: r, S j => sup_alt e = true /\ go r j
              end) els i
       | _ => False
       end
   | TSeqOf s => match v with VList vs => Forall (has_ty s) vs | _ => False end
-  | TArrayOf s _ => match v with VList vs => Forall (has_ty s) vs | _ => False end
-  | TNameValue => False
+  | TArrayOf s f =>
+      match v with
+      | VList vs => Forall (has_ty s) vs /\ match f with Some n => lenN vs = n | None => True end
+      | _ => False
+      end
+  | TNameValue =>            (* name, then nothing / one atomic value / a DateTime *)
+      match v with
+      | VSeq [Some (VAtom n); o] =>
+          leaf_ok 7 n /\
+          match o with
+          | None => True
+          | Some (VAtom x) => num x <= 12 /\ leaf_ok (num x) x
+          | Some (VSeq [Some (VAtom d); Some (VAtom t)]) => leaf_ok 10 d /\ leaf_ok 11 t
+          | _ => False
+          end
+      | _ => False
+      end
   end
 with has_el (e : elem) (f : option val) {struct e} : Prop :=
   match e with
@@ -61,8 +76,8 @@ Fixpoint has_fields (l : list elem) (fs : list (option val)) {struct l} : Prop :
 Fixpoint has_alt (l : list elem) (i : nat) (w : val) {struct l} : Prop :=
   match l, i with
   | [], _ => False
-  | e :: _, O => has_el e (Some w)
-  | _ :: r, S j => has_alt r j w
+  | e :: _, O => sup_alt e = true /\ has_el e (Some w)
+  | e :: r, S j => sup_alt e = true /\ has_alt r j w
   end.
 
 Lemma has_ty_seq els fs : has_ty (TSeq els) (VSeq fs) = has_fields els fs.
@@ -70,7 +85,7 @@ Proof. reflexivity. Qed.
 Lemma has_ty_choice els i w : has_ty (TChoice els) (VChoice i w) = has_alt els i w.
 Proof.
   cbn [has_ty]. revert i. induction els as [|e r IH]; intros i; [reflexivity|].
-  destruct i as [|j]; [reflexivity|]. cbn [has_alt]. apply IH.
+  destruct i as [|j]; [reflexivity|]. cbn [has_alt]. rewrite <- IH. reflexivity.
 Qed.
 
 (* ---------- induction principle for the nested type ---------- *)
@@ -119,6 +134,13 @@ Proof. destruct rest; cbn; auto. Qed.
 Lemma rest_ok_closing ps x r : cls x = 3 -> rest_ok ps (x :: r).
 Proof. cbn; auto. Qed.
 
+Lemma rest_ok_any rest : rest_ok [PAny] rest ->
+  rest = [] \/ exists c r, rest = c :: r /\ cls c = 3.
+Proof.
+  destruct rest as [|c r]; [auto|]. cbn [rest_ok pmatch_any existsb pmatch]. rewrite orb_false_r.
+  intros [H|H]; right; exists c, r; split; auto; lia.
+Qed.
+
 Lemma pdisj_sound p q x : pdisj p q = true -> pmatch p x = true -> pmatch q x = false.
 Proof. destruct p, q; cbn [pdisj pmatch]; intros; try discriminate; lia. Qed.
 
@@ -151,6 +173,9 @@ Proof.
   - cbn [app]. auto.
   - cbn [app rest_ok]. right. eapply pdisj_all_sound; eauto.
 Qed.
+
+Lemma first_seq_cons e r : first (TSeq (e :: r)) = first_el e ++ (if nullable_el e then first (TSeq r) else []).
+Proof. reflexivity. Qed.
 
 (* ---------- leaves ---------- *)
 Lemma tag_eta x : mkTag (cls x) (num x) (lvt x) (data x) = x.
@@ -346,7 +371,7 @@ Proof.
         rewrite (Hrt v (x :: ts') rest Hf He Hr). reflexivity.
     + cbn [has_el] in Hf. subst o. destruct c as [c|]; [|destruct (Hnone eq_refl); discriminate].
       cbn [enc_el] in He. injection He as <-. cbn [app].
-      cbn [avoid_el] in Hr. rewrite Hat in Hr. apply rest_head_open in Hr.
+      cbn [avoid_el] in Hr. rewrite Hli, Hat in Hr. apply rest_head_open in Hr.
       destruct rest as [|x r]; [reflexivity|].
       destruct (cls x =? 3) eqn:E3.
       * cbn [dec_el]. rewrite E3. reflexivity.
@@ -365,27 +390,33 @@ Proof.
     + cbn [has_el] in Hf. subst o. destruct c; cbn [nullable_el] in Hnul; discriminate.
 Qed.
 
-(* a required SequenceOf element *)
-Lemma list_el s c :
+(* a SequenceOf element: required, or optional and context tagged *)
+Lemma list_el s c o : (o = true -> c <> None) ->
   RT (TSeqOf s) -> FST (TSeqOf s) ->
-  RTe (El (TSeqOf s) c false) /\ FSTe (El (TSeqOf s) c false) /\ NNe (El (TSeqOf s) c false).
+  RTe (El (TSeqOf s) c o) /\ FSTe (El (TSeqOf s) c o) /\ NNe (El (TSeqOf s) c o).
 Proof.
-  intros Hrt Hfst. split; [|split].
-  - intros f ts rest Hf He Hr. destruct f as [v|]; [|cbn [has_el] in Hf; discriminate].
-    cbn [has_el] in Hf. cbn [enc_el] in He.
-    destruct v as [| | | |vs]; try (cbn [has_ty] in Hf; contradiction).
-    destruct c as [c|].
-    + apply enc_wrapped_some in He as (b & Hb & ->). cbn [app dec_el open_tag cls N.eqb Pos.eqb].
-      apply dec_list_wrapped; assumption.
-    + apply enc_wrapped_none in He. cbn [avoid_el app] in Hr.
-      pose proof (Hrt (VList vs) ts rest Hf He Hr) as Hd.
-      destruct (ts ++ rest) as [|x r] eqn:E.
-      * cbn in Hd. injection Hd as <- <-. reflexivity.
-      * cbn [dec_el]. destruct (cls x =? 3) eqn:E3.
-        -- cbn [decode length dec_loop] in Hd. rewrite E3 in Hd. cbn [bind] in Hd.
-           injection Hd as <- <-. reflexivity.
-        -- unfold dec_el_list. rewrite Hd. reflexivity.
-  - intros f x ts Hf He. destruct f as [v|]; [|cbn [enc_el] in He; discriminate].
+  intros Hoc Hrt Hfst. split; [|split].
+  - intros f ts rest Hf He Hr. destruct f as [v|].
+    + cbn [has_el] in Hf. cbn [enc_el] in He.
+      destruct v as [| | | |vs]; try (cbn [has_ty] in Hf; contradiction).
+      destruct c as [c|].
+      * apply enc_wrapped_some in He as (b & Hb & ->). cbn [app dec_el open_tag cls N.eqb Pos.eqb].
+        apply dec_list_wrapped; assumption.
+      * destruct o; [exfalso; apply (Hoc eq_refl); reflexivity|].
+        apply enc_wrapped_none in He. cbn [avoid_el app] in Hr.
+        pose proof (Hrt (VList vs) ts rest Hf He Hr) as Hd.
+        destruct (ts ++ rest) as [|x r] eqn:E.
+        -- cbn in Hd. injection Hd as <- <-. reflexivity.
+        -- cbn [dec_el]. destruct (cls x =? 3) eqn:E3.
+           ++ cbn [decode length dec_loop] in Hd. rewrite E3 in Hd. cbn [bind] in Hd.
+              injection Hd as <- <-. reflexivity.
+           ++ unfold dec_el_list. rewrite Hd. reflexivity.
+    + cbn [has_el] in Hf. subst o. destruct c as [c|]; [|exfalso; apply (Hoc eq_refl); reflexivity].
+      cbn [enc_el] in He. injection He as <-. cbn [app].
+      cbn [avoid_el is_list] in Hr. apply rest_ok_any in Hr as [->|(y & r & -> & Hy)].
+      * reflexivity.
+      * cbn [dec_el]. rewrite Hy. reflexivity.
+  - intros f x ts Hf He. destruct f as [v|]; [|cbn [enc_el] in He; destruct o; discriminate].
     cbn [has_el] in Hf. cbn [enc_el] in He.
     destruct v as [| | | |vs]; try (cbn [has_ty] in Hf; contradiction).
     destruct c as [c|].
@@ -393,11 +424,58 @@ Proof.
       cbn [first_el is_atomic pmatch_any existsb pmatch open_tag cls num].
       rewrite !N.eqb_refl. reflexivity.
     + apply enc_wrapped_none in He. cbn [first_el]. eapply Hfst; eauto.
-  - intros Hnul f Hf He. destruct c as [c|]; [|cbn [nullable_el nullable orb] in Hnul; discriminate].
+  - intros Hnul f Hf He. destruct c as [c|]; [|cbn [nullable_el nullable orb] in Hnul; rewrite orb_true_r in Hnul; discriminate].
+    cbn [nullable_el] in Hnul. subst o.
     destruct f as [v|]; [|cbn [has_el] in Hf; discriminate].
     cbn [has_el] in Hf. cbn [enc_el] in He.
     destruct v as [| | | |vs]; try (cbn [has_ty] in Hf; contradiction).
     apply enc_wrapped_some in He as (b & Hb & Heq). discriminate.
+Qed.
+
+(* try / roll-back: a Sequence starting with a required context-tagged element refuses a foreign tag
+   with InvalidTag *)
+Lemma clean_reject_err t x r : clean_reject t = true -> (cls x =? 3) = false ->
+  pmatch_any (first t) x = false -> decode t (x :: r) = Err InvalidTag.
+Proof.
+  destruct t as [| | | |els| | | |]; try discriminate.
+  destruct els as [|[t' [c|] [|]] more]; try discriminate.
+  intros Hc Hx Hm. rewrite first_seq_cons in Hm. unfold pmatch_any in Hm. rewrite existsb_app in Hm.
+  apply orb_false_iff in Hm as [Hm _]. cbn [clean_reject] in Hc.
+  cbn [decode dec_els dec_el]. rewrite Hx.
+  destruct t'; cbn [is_list negb] in Hc; try discriminate;
+    cbn [first_el is_atomic existsb pmatch] in Hm; rewrite orb_false_r in Hm;
+    unfold dec_el_atom, dec_el_anyatomic, dec_el_struct; try rewrite Hm; reflexivity.
+Qed.
+
+(* an un-contexted optional structure (Sequence.decode tries it and rolls back) *)
+Lemma unctx_opt_struct_el t :
+  (forall enc c o v, enc_el enc (El t c o) (Some v) = enc_wrapped enc t c v) ->
+  (forall dec c o x rest, (cls x =? 3) = false ->
+      dec_el dec (El t c o) (x :: rest) = dec_el_struct dec t c o x rest) ->
+  is_atomic t = false -> is_list t = false ->
+  RT t -> FST t -> NN t -> nullable t = false ->
+  RTe (El t None true) /\ FSTe (El t None true) /\ NNe (El t None true).
+Proof.
+  intros Henc Hdec Hat Hli Hrt Hfst Hnn Hnul. split; [|split].
+  - intros f ts rest Hf He Hr. cbn [avoid_el] in Hr. rewrite Hat in Hr. cbn [orb] in Hr.
+    apply rest_ok_app in Hr as [Hr1 Hr2]. destruct f as [v|].
+    + cbn [has_el] in Hf. rewrite Henc in He. apply enc_wrapped_none in He.
+      destruct ts as [|x ts']; [exfalso; exact (Hnn Hnul v Hf He)|].
+      pose proof (Hfst v x ts' Hf He) as Hx. apply pmatch_any_not_closing in Hx.
+      cbn [app]. rewrite Hdec by lia. unfold dec_el_struct.
+      change (x :: ts' ++ rest) with ((x :: ts') ++ rest).
+      rewrite (Hrt v (x :: ts') rest Hf He Hr2). reflexivity.
+    + cbn [enc_el] in He. injection He as <-. cbn [app].
+      destruct rest as [|x r]; [reflexivity|].
+      destruct (cls x =? 3) eqn:E3; [cbn [dec_el]; rewrite E3; reflexivity|].
+      rewrite Hdec by assumption. unfold dec_el_struct.
+      destruct (clean_reject t) eqn:Ecr.
+      * cbn [rest_ok] in Hr1. destruct Hr1 as [Hr1|Hr1]; [lia|].
+        rewrite (clean_reject_err t x r Ecr E3 Hr1). reflexivity.
+      * cbn [rest_ok pmatch_any existsb pmatch] in Hr1. rewrite E3 in Hr1. destruct Hr1 as [Hr1|Hr1]; [lia|discriminate].
+  - intros f x ts Hf He. destruct f as [v|]; [|cbn [enc_el] in He; discriminate].
+    cbn [has_el] in Hf. rewrite Henc in He. apply enc_wrapped_none in He. cbn [first_el]. eapply Hfst; eauto.
+  - intros Hn. cbn [nullable_el orb] in Hn. discriminate.
 Qed.
 
 (* alternatives of a Choice *)
@@ -450,6 +528,24 @@ Ltac split_andb :=
          | H : (_ && _) = true |- _ => apply andb_true_iff in H; destruct H
          end.
 
+Lemma nn_from_cond t : is_list t = false ->
+  (false || negb (nullable t) || is_list t) = true -> nullable t = false.
+Proof. intros -> H. cbn [orb] in H. rewrite orb_false_r in H. apply negb_true_iff in H. exact H. Qed.
+
+(* Any / SequenceOfAny / Sequence / Choice / NameValue elements share the code path of "some kind of
+   structure" *)
+Ltac dec_shape := intros dec c0 o0 x rest E; cbn [dec_el]; rewrite E; reflexivity.
+Ltac wrapped_case :=
+  apply struct_el; try assumption; try reflexivity; [dec_shape | intros E; discriminate E].
+Ltac struct_case c o :=
+  destruct c as [c|];
+  [ wrapped_case
+  | cbn [orb andb negb is_list] in *; destruct o;
+    [ apply unctx_opt_struct_el; try assumption; try reflexivity;
+      first [dec_shape | apply negb_true_iff; assumption]
+    | apply struct_el; try assumption; try reflexivity;
+      first [dec_shape | intros _; split; [reflexivity | first [reflexivity | apply nn_from_cond; [reflexivity | assumption]]]] ] ].
+
 Lemma el_facts t c o : good t -> goode (El t c o).
 Proof.
   intros Hg Hwf. cbn [wf_el] in Hwf. split_andb.
@@ -459,27 +555,18 @@ Proof.
     destruct t.
     + apply atom_el. cbn [supported] in *. lia.
     + destruct c as [c|]; [discriminate|]. apply anyatomic_el.
-    + apply struct_el; try assumption; try reflexivity.
-      * intros dec c0 o0 x rest E. cbn [dec_el]. rewrite E. reflexivity.
-      * intros ->. destruct o; cbn in *; try discriminate.
-    + apply struct_el; try assumption; try reflexivity.
-      * intros dec c0 o0 x rest E. cbn [dec_el]. rewrite E. reflexivity.
-      * intros ->. destruct o; cbn in *; try discriminate.
-    + apply struct_el; try assumption; try reflexivity.
-      * intros dec c0 o0 x rest E. cbn [dec_el]. rewrite E. reflexivity.
-      * intros ->. destruct o; [discriminate|]. split; [reflexivity|].
-        match goal with H : (false || negb (nullable ?t) || is_list ?t) = true |- _ =>
-          cbn [is_list orb] in H; rewrite orb_false_r in H; apply negb_true_iff in H; exact H end.
-    + apply struct_el; try assumption; try reflexivity.
-      * intros dec c0 o0 x rest E. cbn [dec_el]. rewrite E. reflexivity.
-      * intros ->. destruct o; [discriminate|]. split; reflexivity.
-    + destruct o; [destruct c; discriminate|]. apply list_el; assumption.
+    + destruct c as [c|]; [wrapped_case | exfalso; destruct o; cbn in *; discriminate].
+    + destruct c as [c|]; [wrapped_case | exfalso; destruct o; cbn in *; discriminate].
+    + struct_case c o.
+    + struct_case c o.
+    + apply list_el; try assumption. intros ->. destruct c; [discriminate|discriminate].
     + discriminate.
-    + discriminate.
+    + struct_case c o.
   - intros Hs. cbn [sup_alt] in Hs. split_andb.
     destruct (Hg ltac:(assumption) ltac:(assumption)) as (Hrt & Hfst & Hnn).
     destruct t; try discriminate.
     + apply atom_alt.
+    + destruct c as [c|]; [|discriminate]. apply wrapped_alt; try assumption; reflexivity.
     + destruct c as [c|]; [|discriminate]. apply wrapped_alt; try assumption; reflexivity.
     + destruct c as [c|]; [|discriminate]. apply wrapped_alt; try assumption; reflexivity.
     + destruct c as [c|]; [|discriminate]. apply wrapped_alt; try assumption; reflexivity.
@@ -515,13 +602,6 @@ Qed.
 
 Lemma balanced_head x ts : balanced (x :: ts) -> cls x <> 3.
 Proof. intros H. inversion H; subst; lia. Qed.
-
-Lemma rest_ok_any rest : rest_ok [PAny] rest ->
-  rest = [] \/ exists c r, rest = c :: r /\ cls c = 3.
-Proof.
-  destruct rest as [|c r]; [auto|]. cbn [rest_ok pmatch_any existsb pmatch]. rewrite orb_false_r.
-  intros [H|H]; right; exists c, r; split; auto; lia.
-Qed.
 
 Lemma any_rt ts rest : balanced ts -> rest_ok [PAny] rest ->
   (do (g, r) <- any_decode (ts ++ rest); Ok (VTags g, r)) = Ok (VTags ts, rest).
@@ -648,22 +728,22 @@ Proof.
   - apply IH; assumption.
 Qed.
 
-Lemma choice_rt els : Forall goode els -> forallb sup_alt els = true -> forallb wf_el els = true ->
+Lemma choice_rt els : Forall goode els -> forallb wf_el els = true ->
   pairwise_disj (map first_el els) = true ->
   forall i n w ts, has_alt els i w -> enc_nth encode els i w = Ok ts ->
   exists x ts', ts = x :: ts' /\ pmatch_any (flat_map first_el els) x = true /\
     forall rest, dec_alts decode els n x (ts' ++ rest) = Ok (VChoice (n + i) w, rest).
 Proof.
-  induction 1 as [|e r He _ IH]; intros Hs Hw Hd i n w ts Ha Henc; [destruct i; contradiction|].
+  induction 1 as [|e r He _ IH]; intros Hw Hd i n w ts Ha Henc; [destruct i; contradiction|].
   cbn [forallb map pairwise_disj] in *. split_andb.
   destruct i as [|j].
-  - cbn [has_alt enc_nth] in *. destruct (He ltac:(assumption)) as [_ Halt].
-    destruct (Halt ltac:(assumption) w ts Ha Henc) as (x & ts' & -> & Hm & Hdec).
+  - cbn [has_alt enc_nth] in *. destruct Ha as [Hsa Ha]. destruct (He ltac:(assumption)) as [_ Halt].
+    destruct (Halt Hsa w ts Ha Henc) as (x & ts' & -> & Hm & Hdec).
     exists x, ts'. split; [reflexivity|]. split.
     + cbn [flat_map]. unfold pmatch_any. rewrite existsb_app. apply orb_true_iff. left. exact Hm.
     + intros rest. rewrite Nat.add_0_r. apply Hdec.
-  - cbn [has_alt enc_nth] in *.
-    destruct (IH ltac:(assumption) ltac:(assumption) ltac:(assumption) j (S n) w ts Ha Henc)
+  - cbn [has_alt enc_nth] in *. destruct Ha as [Hsa Ha].
+    destruct (IH ltac:(assumption) ltac:(assumption) j (S n) w ts Ha Henc)
       as (x & ts' & -> & Hm & Hdec).
     exists x, ts'. split; [reflexivity|]. split.
     + cbn [flat_map]. unfold pmatch_any. rewrite existsb_app. apply orb_true_iff. right. exact Hm.
@@ -680,7 +760,7 @@ Proof.
               forall rest, dec_alts decode els 0 x (ts' ++ rest) = Ok (VChoice i w, rest)).
   { intros v ts Hv He. destruct v as [| | |i w|]; try contradiction.
     rewrite has_ty_choice in Hv. cbn [encode] in He.
-    destruct (choice_rt els Hall ltac:(assumption) ltac:(assumption) ltac:(assumption) i 0%nat w ts Hv He)
+    destruct (choice_rt els Hall ltac:(assumption) ltac:(assumption) i 0%nat w ts Hv He)
       as (x & ts' & -> & Hm & Hdec).
     exists i, w, x, ts'. repeat split; auto. }
   split; [|split].
@@ -763,6 +843,89 @@ Proof.
   - intros Hn. discriminate.
 Qed.
 
+(* ---------- arrays (top-level only) ---------- *)
+Lemma good_arrayof s f : good s -> good (TArrayOf s f).
+Proof.
+  intros Hg Hs Hw. cbn [supported wf_ty] in Hs, Hw. split_andb.
+  destruct (Hg ltac:(assumption) ltac:(assumption)) as (Hrt & Hfst & Hnn).
+  assert (Hnul : nullable s = false) by (apply negb_true_iff; assumption).
+  assert (Henc : forall vs ts, has_ty (TArrayOf s f) (VList vs) -> encode (TArrayOf s f) (VList vs) = Ok ts ->
+                 enc_list (encode s) vs = Ok ts).
+  { intros vs ts [_ Hl] He. cbn [encode] in He. destruct f as [n|]; [|exact He].
+    destruct (lenN vs =? n) eqn:E; [exact He|lia]. }
+  split; [|split].
+  - intros v ts rest Hv He Hr. destruct v as [| | | |vs]; try contradiction.
+    pose proof (Henc vs ts Hv He) as He'. destruct Hv as [Hv Hl]. cbn [avoid] in Hr. cbn [decode].
+    rewrite (loop_rt s Hrt Hfst Hnn Hnul ltac:(assumption) vs _ ts rest Hv He' Hr).
+    + cbn [bind]. destruct f as [n|]; [|reflexivity]. destruct (lenN vs =? n) eqn:E; [reflexivity|lia].
+    + pose proof (list_len s Hnn Hnul vs ts Hv He'). rewrite app_length. lia.
+  - intros v x ts Hv He. destruct v as [| | | |vs]; try contradiction.
+    pose proof (Henc vs _ Hv He) as He'. destruct Hv as [Hv _]. cbn [first]. eapply list_fst; eauto.
+  - intros Hn. discriminate.
+Qed.
+
+(* ---------- NameValue (its own codec) ---------- *)
+Lemma has_ty_namevalue v : has_ty TNameValue v ->
+  exists n, leaf_ok 7 n /\
+    (v = VSeq [Some (VAtom n); None]
+     \/ (exists x, num x <= 12 /\ leaf_ok (num x) x /\ v = VSeq [Some (VAtom n); Some (VAtom x)])
+     \/ (exists d t, leaf_ok 10 d /\ leaf_ok 11 t /\
+                     v = VSeq [Some (VAtom n); Some (VSeq [Some (VAtom d); Some (VAtom t)])])).
+Proof.
+  cbn [has_ty].
+  destruct v as [| |fs| |]; try contradiction.
+  destruct fs as [|[[n| | | |]|] [|o [|]]]; try contradiction.
+  intros [Hn Ho]. exists n. split; [exact Hn|].
+  destruct o as [[x| |gs| |]|]; try contradiction.
+  - right; left. exists x. destruct Ho. auto.
+  - destruct gs as [|[[d| | | |]|] [|[[t| | | |]|] [|]]]; try contradiction.
+    right; right. exists d, t. destruct Ho. auto.
+  - left. reflexivity.
+Qed.
+
+Lemma good_namevalue : good TNameValue.
+Proof.
+  intros _ _.
+  assert (Hkey : forall v ts, has_ty TNameValue v -> encode TNameValue v = Ok ts ->
+            exists n n' tail, leaf_ok 7 n /\ app_to_context 0 n = Ok n' /\ cls n' = 1 /\ num n' = 0 /\
+              context_to_app 7 n' = Ok n /\ ts = n' :: tail /\
+              ((v = VSeq [Some (VAtom n); None] /\ tail = [])
+               \/ (exists x, num x <= 12 /\ leaf_ok (num x) x /\ v = VSeq [Some (VAtom n); Some (VAtom x)] /\ tail = [x])
+               \/ (exists d t, leaf_ok 10 d /\ leaf_ok 11 t /\
+                     v = VSeq [Some (VAtom n); Some (VSeq [Some (VAtom d); Some (VAtom t)])] /\ tail = [d; t]))).
+  { intros v ts Hv He. destruct (has_ty_namevalue v Hv) as (n & Hn & Hcases).
+    destruct (leaf_ctx_roundtrip 7 0 n Hn) as (n' & Ha & Hc1 & Hc2 & Hback).
+    destruct Hcases as [->|[(x & H12 & Hx & ->)|(d & t & Hd & Ht & ->)]];
+      cbn [encode enc_namevalue] in He; rewrite Ha in He; cbn [bind] in He; injection He as <-.
+    - exists n, n', []. repeat (split; [assumption || reflexivity|]). left. auto.
+    - exists n, n', [x]. repeat (split; [assumption || reflexivity|]). right; left. exists x. auto.
+    - exists n, n', [d; t]. repeat (split; [assumption || reflexivity|]). right; right. exists d, t. auto. }
+  split; [|split].
+  - intros v ts rest Hv He Hr. cbn [avoid] in Hr. apply rest_head_appany in Hr.
+    destruct (Hkey v ts Hv He) as (n & n' & tail & Hn & Ha & Hc1 & Hc2 & Hback & -> & Hcases).
+    cbn [app decode dec_namevalue]. rewrite Hc1, Hc2. cbn [N.eqb Pos.eqb andb].
+    rewrite Hback. cbn [bind]. rewrite (leaf_check _ _ Hn).
+    destruct Hcases as [[-> ->]|[(x & H12 & Hx & -> & ->)|(d & t & Hd & Ht & -> & ->)]]; cbn [app].
+    + destruct rest as [|y r]; [reflexivity|].
+      destruct Hr as [Hr|Hr]; [|rewrite Hr; reflexivity].
+      destruct (cls y =? 0) eqn:E; [lia|reflexivity].
+    + pose proof Hx as (Hcx & _ & Hchk & _). rewrite Hcx. cbn [N.eqb].
+      assert (Hobj : anyatomic_obj x = Ok (Some (VAtom x))).
+      { unfold anyatomic_obj. rewrite Hcx. cbn [N.eqb negb].
+        destruct (16 <=? num x) eqn:E1; [lia|]. destruct (13 <=? num x) eqn:E2; [lia|].
+        rewrite Hchk. reflexivity. }
+      destruct rest as [|z r].
+      * rewrite Hobj. reflexivity.
+      * assert (Hz : (cls z =? 0) = false) by (destruct Hr as [Hr|Hr]; [lia|exact Hr]).
+        rewrite Hz, andb_false_r. cbn [andb]. rewrite Hobj. reflexivity.
+    + destruct Hd as (Hcd & Hnd & Hchd & _). destruct Ht as (Hct & Hnt & Hcht & _).
+      rewrite Hcd, Hnd, Hct, Hnt. cbn [N.eqb Pos.eqb andb]. rewrite Hchd, Hcht. reflexivity.
+  - intros v x ts Hv He.
+    destruct (Hkey v (x :: ts) Hv He) as (n & n' & tail & _ & _ & Hc1 & Hc2 & _ & Heq & _).
+    injection Heq as -> _. cbn [first pmatch_any existsb pmatch]. rewrite Hc1, Hc2. reflexivity.
+  - intros _ v Hv He. destruct (Hkey v [] Hv He) as (n & n' & tail & _ & _ & _ & _ & _ & Heq & _). discriminate.
+Qed.
+
 (* ---------- the round trip for every supported, well-formed schema ---------- *)
 Theorem codec_good : forall t, good t.
 Proof.
@@ -774,8 +937,8 @@ Proof.
   - exact good_seq.
   - exact good_choice.
   - exact good_seqof.
-  - intros s f _ Hs. discriminate.
-  - intros Hs. discriminate.
+  - exact good_arrayof.
+  - exact good_namevalue.
   - exact el_facts.
 Qed.
 
